@@ -71,6 +71,7 @@ func checkC06(tier, replay string) int {
 		return replayC06(replay)
 	}
 	ctx := evid.New("C06", tier, "model_checking")
+	installHangHandler(ctx)
 	st := &c06Stats{}
 	var lens sync.Map
 	pro := []int{1}
